@@ -76,7 +76,7 @@ type (
 	}
 )
 
-func (v *NumVal) IsInt() bool { return v.V == math.Trunc(v.V) }
+func (v *NumVal) IsInt() bool { return v.V == math.Trunc(v.V) && math.Abs(v.V) < 1<<63 }
 func (v *NumVal) Int() int64  { return int64(v.V) }
 
 func (v *Val) Bool() *BoolVal   { return (*BoolVal)(unsafe.Pointer(v)) }
